@@ -225,6 +225,17 @@ func (s *stream) Open() {
 	s.streamFinishedWithCloseCh = false
 	s.streamFinishedWithEndEventCh = false
 
+	// drop finish signals left over from the previous session
+	select {
+	case <-s.finishStreamWithCloseCh:
+	default:
+	}
+
+	select {
+	case <-s.finishStreamWithEndEventCh:
+	default:
+	}
+
 	s.eventHandler.BeforeStreamStart()
 
 	vbIDs := s.vBucketDiscovery.Get()
